@@ -135,6 +135,39 @@ def deadline_problems(W: "WaitFacts") -> List[str]:
         return out
     if any(isinstance(n, ast.Name) and n.id == "timeout" and isinstance(n.ctx, ast.Store) for n in walk_local(send.node)):
         out.append("the timeout parameter is reassigned")
+    # once the deadline has passed the TimeoutError goes to the caller: a handler (or finally) around the deadline scope that
+    # awaits something with no bound of its own holds it back for as long as that await takes
+    def bounded(await_node, within) -> bool:
+        found = []
+
+        def rec2(n, stack):
+            if n is await_node:
+                found.extend(stack)
+                return True
+            for c in ast.iter_child_nodes(n):
+                ns = stack + [n] if isinstance(n, (ast.With, ast.AsyncWith)) else stack
+                if rec2(c, ns):
+                    return True
+            return False
+
+        rec2(within, [])
+        return any(isinstance(it.context_expr, ast.Call) and call_name(it.context_expr) in ("anyio.fail_after", "anyio.move_on_after", "fail_after", "move_on_after") and it.context_expr.args
+                   and not (isinstance(it.context_expr.args[0], ast.Constant) and it.context_expr.args[0].value is None) for w_ in found for it in w_.items)
+
+    w0 = scope[0]
+    for t in walk_local(send.node):
+        if isinstance(t, ast.Try) and any(w0 is x for b in t.body for x in ast.walk(b)):
+            for h in t.handlers:
+                nm = ast.unparse(h.type) if h.type is not None else "<bare>"
+                if h.type is None or any(k in nm for k in ("TimeoutError", "BaseException", "Exception")):
+                    for b in h.body:
+                        for a in ast.walk(b):
+                            if isinstance(a, ast.Await) and not bounded(a, ast.Module(body=h.body, type_ignores=[])):
+                                out.append(f"after the deadline has passed, `{ast.unparse(a)[:60]}` in the `except {nm[:30]}` arm runs with no bound of its own before the error is re-raised: if it blocks (a full or unread write stream), the call neither returns nor raises")
+            for b in t.finalbody:
+                for a in ast.walk(b):
+                    if isinstance(a, ast.Await) and not bounded(a, ast.Module(body=t.finalbody, type_ignores=[])):
+                        out.append(f"after the deadline has passed, `{ast.unparse(a)[:60]}` in the `finally` arm runs with no bound of its own: if it blocks, the timeout never reaches the caller")
     w, it = scope
     if it.optional_vars is not None and isinstance(it.optional_vars, ast.Name):
         sv = it.optional_vars.id
